@@ -57,6 +57,7 @@ func NewSrvPeer(x *Ctx, conn *rt.Conn, msize uint32, dotu bool) *SrvPeer {
 func (p *SrvPeer) Start() {
 	p.G = rt.Go(rt.SiteSpawn, func() {
 		rt.SetName("srvpeer-reader")
+		rt.HarnessOnly()
 		var fr Framer
 		buf := make([]byte, 1<<16)
 		for {
@@ -164,6 +165,7 @@ func (p *SrvPeer) Send(r *PReq, b []byte) {
 func (p *SrvPeer) SendLater(r *PReq, b []byte) {
 	rt.Go(rt.SiteSpawn, func() {
 		rt.SetName(fmt.Sprintf("answer-%d", r.Idx))
+		rt.HarnessOnly()
 		if r.Hold {
 			rt.YieldUntil(rt.SiteHold, func() bool { return !r.Hold })
 		}
